@@ -40,6 +40,7 @@ This file is part of libECBUFR.
 #include "bufr_i18n.h"
 #include "private/gcmemory.h"
 #include "config.h"
+#include <limits.h>
 
 static caddr_t  BufrDescriptor_gcmemory=NULL;
 
@@ -1181,31 +1182,48 @@ float bufr_descriptor_get_location ( BufrDescriptor *cb, int desc )
  */
 int bufr_print_dscptr_value( char *outstr, BufrDescriptor *cb )
    {
+   return bufr_snprint_dscptr_value( outstr, INT_MAX, cb );
+   }
+
+/**
+ * @english
+ * Same as bufr_print_dscptr_value() for a buffer of known size: nothing is
+ * written beyond outstr[size-1]; a text that does not fit is cut.
+ * @return 0 if nothing was printed, 1 otherwise.
+ * @endenglish
+ * @francais
+ * @todo translate to French
+ * @endfrancais
+ * @ingroup debug descriptor
+ */
+int bufr_snprint_dscptr_value( char *outstr, size_t size, BufrDescriptor *cb )
+   {
    int64_t    ival;
 
    if (outstr == NULL) return 0;
+   if (size == 0) return 0;
 
    if (cb->flags & FLAG_SKIPPED) return 0;
 
    switch (cb->encoding.type)
       {
       case TYPE_NUMERIC :
-         bufr_print_scaled_value( outstr, cb->value, cb->encoding.scale );
+         bufr_snprint_scaled_value( outstr, size, cb->value, cb->encoding.scale );
          break;
       case TYPE_FLAGTABLE :
          ival = bufr_value_get_int64( cb->value ); /* a flag table may be 32 bits wide or more */
          if (ival < 0)
             {
-            strcpy( outstr, "MSNG" );
+            snprintf( outstr, size, "MSNG" );
             }
          else
             {
-            bufr_print_binary( outstr, ival, cb->encoding.nbits );
+            bufr_snprint_binary( outstr, size, ival, cb->encoding.nbits );
             }
 
          break;
       default :
-         bufr_print_value( outstr, cb->value );
+         bufr_snprint_value( outstr, size, cb->value );
       break;
       }
    return 1;
